@@ -243,12 +243,14 @@ func (g *c02Gen) next(prefix string) *c02Op {
 		"concat-empty-head", "concat-empty-head2", "apply-concat-empty-head", "update-in-vec", "assoc-in-vec", "update-in-mixed", "assoc-in-mixed", "update-vec",
 		"map-rest-retain", "apply-rest-retain", "reduce-rest-retain",
 		"drain-vec", "drain-rest", "rest-param-vec", "dissoc-multi", "dissoc-multi-set", "dissoc-multi-present", "catch-poolname", "let-shadow-poolname",
-		"eval-code", "call-fn-value", "let-shadow-closure", "let-shadow-closure-fn", "conj-set-multi"}
+		"eval-code", "call-fn-value", "let-shadow-closure", "let-shadow-closure-fn", "conj-set-multi",
+		"marshal-error", "closure-from-apply", "closure-from-map", "closure-from-swap", "assoc-vec-end"}
 	weights := []int{8, 3, 2, 6, 2, 5, 2, 2, 2, 2, 1, 1, 1, 3, 3, 2, 1, 1, 1, 1, 1, 1, 2, 1, 1, 2, 3, 2, 1, 4, 3, 2, 2, 2, 2,
 		3, 2, 2, 3, 2, 2, 2, 2,
 		2, 1, 1,
 		3, 2, 2, 3, 2, 1, 2, 1,
-		2, 2, 3, 1, 1}
+		2, 2, 3, 1, 1,
+		2, 2, 2, 1, 2}
 	kind := kinds[g.tp.Weighted(LaneWork, weights)]
 	var src, typ string
 	expectParent := ""
@@ -407,6 +409,29 @@ func (g *c02Gen) next(prefix string) *c02Op {
 		v := g.pick("set")
 		parents = append(parents, v)
 		src, typ = "(conj "+v.Name+" \"s"+k+"\" \"t"+k+"\")", "set"
+	case "marshal-error":
+		// an error object wrapping a pool map is turned into a hash-map: the wrapped map must stay as it was
+		src, typ = "(hash-map (new-error "+mp().Name+"))", "map"
+	case "closure-from-apply":
+		// a closure made inside a function that was called through apply outlives that call
+		v := g.pick("vec", "list", "map")
+		parents = append(parents, v)
+		src, typ = "(let [c (apply (fn [n] (fn [] n)) (list "+v.Name+"))] (do (apply (fn [n] n) (list "+k+")) (c)))", v.Type
+		expectParent = v.Name
+	case "closure-from-map":
+		v := g.pick("vec", "list", "map")
+		parents = append(parents, v)
+		src, typ = "(let [cs (map (fn [n] (fn [] n)) (list "+v.Name+" "+k+"))] (do (map (fn [n] (+ n 1)) (list 1 2)) ((first cs))))", v.Type
+		expectParent = v.Name
+	case "closure-from-swap":
+		v := g.pick("vec", "list", "map")
+		parents = append(parents, v)
+		src, typ = "(let [a (atom nil)] (do (swap! a (fn [old n] (fn [] n)) "+v.Name+") (swap! (atom 0) (fn [old n] n) "+k+") ((deref a))))", v.Type
+		expectParent = v.Name
+	case "assoc-vec-end":
+		// index one past the end (an error today; should it ever append, it must not write into the parent)
+		v := vec()
+		src, typ = "(assoc "+v.Name+" (count "+v.Name+") "+k+")", "vec"
 	case "map-rest-retain":
 		// the rest list of a variadic callback is kept while map goes on: what was stored must not change
 		src, typ = "(let [acc (atom [])] (map (fn [& xs] (do (swap! acc conj xs) (snap! @acc) xs)) "+seq().Name+"))", "list"
